@@ -55,6 +55,8 @@ var c18Algs = []c18Alg{
 	{"ECDSAP256SHA256", dns.ECDSAP256SHA256, "ecdsap256sha256", 64, true},
 	{"ECDSAP384SHA384", dns.ECDSAP384SHA384, "ecdsap384sha384", 96, false},
 	{"ED25519", dns.ED25519, "ed25519", 64, true},
+	// algorithm 7 is RSA/SHA-1 under its NSEC3 number: the fixed RSASHA1 key material with the algorithm octet set to 7
+	{"RSASHA1NSEC3SHA1", dns.RSASHA1NSEC3SHA1, "rsasha1@7", 128, false},
 }
 
 type c18Key struct {
@@ -84,7 +86,8 @@ func c18LoadKey(file string) *c18Key {
 	if k := c18KeyCache[file]; k != nil {
 		return k
 	}
-	base := filepath.Join(c18KeyDir(), "sig0-"+file)
+	alg7 := strings.Contains(file, "@7")
+	base := filepath.Join(c18KeyDir(), "sig0-"+strings.Replace(file, "@7", "", 1))
 	pub, err := os.ReadFile(base + ".key")
 	if err != nil {
 		panic("C18 fixed key missing: " + err.Error())
@@ -116,6 +119,9 @@ func c18LoadKey(file string) *c18Key {
 	pn := rn.Parse(ref.Owner)
 	if !pn.OK || !pn.FQDN || !rn.ValidWire(pn.Labels) {
 		panic(base + ".key: owner name not valid under ref/name")
+	}
+	if alg7 {
+		krr.Algorithm, ref.Algorithm = dns.RSASHA1NSEC3SHA1, rs.RSASHA1NSEC3
 	}
 	k := &c18Key{rr: krr, priv: signer, ref: ref, ownerWire: rn.Wire(pn.Labels), tag: ref.Tag()}
 	c18KeyCache[file] = k
